@@ -67,3 +67,46 @@ end
 def wfC (v : Val) : Bool := containerOk v && wfA v
 
 end QuantemModel.Serialize
+
+namespace QuantemModel.Serialize
+
+/-! ### C14: attribute-nested graphs and the stripped graph -/
+
+mutual
+/-- no AutoSerialize object anywhere inside -/
+def noObj : Val → Bool
+  | .obj .. => false
+  | .list xs | .tuple xs | .set xs => noObjList xs
+  | .dict kvs => noObjKvs kvs
+  | _ => true
+def noObjList : List Val → Bool
+  | [] => true
+  | v :: rest => noObj v && noObjList rest
+def noObjKvs : List (String × Val) → Bool
+  | [] => true
+  | (_, v) :: rest => noObj v && noObjKvs rest
+end
+
+mutual
+/-- nested AutoSerialize objects are reached through attributes only -/
+def attrNested : Val → Bool
+  | .obj _ attrs => attrNestedAttrs attrs
+  | v => noObj v
+def attrNestedAttrs : List (String × Val) → Bool
+  | [] => true
+  | (_, v) :: rest => attrNested v && attrNestedAttrs rest
+end
+
+mutual
+/-- the graph the property requires after skipping `names`: the named attributes removed at
+every attribute-nested object level, nothing else touched -/
+def stripA (names : List String) : Val → Val
+  | .obj cls attrs => .obj cls (stripAttrs names attrs)
+  | v => v
+def stripAttrs (names : List String) : List (String × Val) → List (String × Val)
+  | [] => []
+  | (k, v) :: rest =>
+      if names.contains k then stripAttrs names rest else (k, stripA names v) :: stripAttrs names rest
+end
+
+end QuantemModel.Serialize
